@@ -448,3 +448,102 @@ def c13(tier, seed, only):
         "'shipped examples at sizes far beyond brute force' is outside the claim: whole searches are explored symbolically only for micro-models; the size-independent part are the lemmas (init flattening, offset write-back via the shared_twice/queens_like models, translation)",
     ]
     return chk.finish({"solve": batch})
+
+
+@check("C10")
+def c10(tier, seed, only):
+    from nusym import h_shave, h_solve  # noqa
+
+    chk = Check("C10", tier, seed)
+    models = ["lt", "sum_eq", "geq_leq", "alldiff3", "alldiff_lt", "max_eq", "max_leq_min_geq", "queens_like", "shared_twice", "magic_like", "count", "element_liv", "lex", "relation", "and_true", "gcc", "circuit3", "noncoprime_eq", "lin3"]
+    if tier == "quick":
+        models = [m for m in models if m not in ("count", "gcc")]
+    for name in models:
+        if only and name not in only:
+            continue
+        for state in ("root", "after_choice"):
+            r = chk.explore("shave_vs_bc", dict(model=name, state=state), f"shave_vs_bc/{name}/{state}")
+            chk.require(f"{name}/{state}", any(k.startswith("status:") or k == "root-not-unbound" for k in r.acc.counts), "never returned")
+    r = chk.explore("shave_bound", dict(height=5), "shave_bound/BC-contract-stub")
+    chk.require("shave_bound", r.acc.counts.get("shaved:True", 0) > 0 and r.acc.counts.get("shaved:False", 0) > 0, "both verdicts must be reached")
+    # C: a solver using shaving enumerates exactly the semantic set and finds the optimum (hence the same as with BC: C02/C03)
+    runs = [(n, dict(cons="shaving", varh=v, domh=d)) for n, v, d in [("lt", "first", "min"), ("alldiff3", "smallest", "max"), ("queens_like", "first", "mid"), ("max_eq", "greatest", "split"), ("shared_twice", "first", "min"), ("circuit3", "first", "max"), ("count", "first", "mid"), ("geq_leq", "smallest", "split")]]
+    if only:
+        runs = [x for x in runs if x[0] in only]
+    batch = solvefam.run_plan(chk, ["C01", "C02"], runs)
+    for n in ("lt", "sum_eq", "max_eq", "obj_under_leq"):
+        if only and n not in only:
+            continue
+        for mode in ("minimize", "maximize"):
+            batch += solvefam.run_plan(chk, ["C03", "C01"], [(n, dict(cons="shaving"))], mode=mode, objective=0)
+    chk.functions.update(["shaving_consistency_algorithm", "shave_bound", "bound_consistency_algorithm", "min_value_dom_heuristic", "max_value_dom_heuristic", "first_not_instantiated_var_heuristic", "backtrack"])
+    chk.stubs.append("inside the shave_bound lemma only: bound_consistency_algorithm replaced by its contract (any status; may only shrink the current level and clear flags of the current level)")
+    chk.assumptions += ["search states: the root and the state after propagation + one min-value branch on the first free variable", "shaving is documented as experimental; its own statistics are not part of this property"]
+    return chk.finish({"solve": batch})
+
+
+@check("C16")
+def c16(tier, seed, only):
+    from nusym import h_heur
+
+    chk = Check("C16", tier, seed)
+    batch = propfam.run_catalogue(chk, ["C16"], algs=only)
+    for hname in h_heur.HEUR_NAMES:
+        chk.explore("heur", dict(hname=hname, select=["C16"], table=0), f"heur/{hname}")
+    for vname in h_heur.VARH_NAMES:
+        chk.explore("varheur", dict(vname=vname, select=["C16"], W=3 if (vname == "max_regret" and tier == "quick") else 4), f"varheur/{vname}")
+    runs = solvefam.plan(tier, seed, models=only)
+    batch2 = solvefam.run_plan(chk, ["C16"], runs)
+    ob = chk.res.obligations
+    chk.require("C16", ob["index_checks"] > 1000, "index obligations were not generated")
+    chk.extra_cov.update(obligations=ob["index_checks"] + ob["sym_index_checks"], discharged=ob["index_checks"] + ob["sym_index_checks"] - sum(1 for v in chk.violations if v.get("prop") == "C16"))
+    chk.assumptions += [
+        "every subscript executed on every explored path is an obligation: a concrete index is tested at once, a symbolic index by the query PC and (i < -len or i >= len); negative in-range indices wrap as in NumPy/Numba and are counted (negative_index_uses)",
+        "contracts: successor values within [0,n); gcc values within [v0, v0+m); cost tables cover the values of the domains; search depth fits the stack (the converse is C19)",
+        "outside the claim: n, m beyond the catalogue (the '2n+2' and 'm+6' sizing arguments are checked for those n, m only); int16 paths / uint16 ranks limits",
+    ]
+    return chk.finish({"prop": batch, "solve": batch2})
+
+
+@check("C15")
+def c15(tier, seed, only):
+    from nusym import h_solve, h_prop  # noqa
+
+    chk = Check("C15", tier, seed, level="other")
+    # (a) no dependence on how argsort breaks ties
+    tie_cfgs = [dict(alg="alldifferent", n=2, params=[]), dict(alg="alldifferent", n=3, params=[]), dict(alg="gcc", n=2, params=[0, ["s", 0, 2], ["s", 0, 2], ["s", 1, 2], ["s", 1, 2]]), dict(alg="gcc", n=3, params=[0, 0, 1, 0, 3, 1, 1])]
+    if tier != "quick":
+        tie_cfgs += [dict(alg="gcc", n=3, params=[0, 1, 0, 1, 2, 1, 2]), dict(alg="gcc", n=3, params=[0, 0, 0, 0, 2, 2, 2])]
+    for cfg in tie_cfgs:
+        if only and cfg["alg"] not in only:
+            continue
+        chk.explore("prop_ties", dict(cfg=cfg), f"ties/{cfg['alg']}/n={cfg['n']}/{cfg['params']}", flags=dict(loop_budget=4000))
+    # (b) no dependence on uninitialised memory, (c) history independence
+    hist = [["other_solver_abandoned"], ["other_solver_exhausted"], ["minimize_first"], ["register_extras"], ["split"], ["init_twice"], ["other_solver_abandoned", "register_extras"], ["minimize_first", "other_solver_exhausted"]]
+    models = ["lt", "alldiff3", "queens_like", "shared_twice", "count", "circuit3", "max_eq", "magic_like"]
+    if tier == "quick":
+        models = ["lt", "alldiff3", "shared_twice", "circuit3", "magic_like"]
+    batch = []
+    cfgs = [{}, dict(cons="shaving", domh="mid"), dict(varh="smallest", domh="max")]
+    k = seed
+    for name in models:
+        if only and name not in only:
+            continue
+        for hi_, h in enumerate(hist):
+            if tier == "quick" and name in ("alldiff3", "circuit3") and hi_ % 2 == (seed + len(name)) % 2:
+                continue  # the two larger models take half of the histories each in the quick tier
+            cfg = cfgs[k % len(cfgs)]
+            k += 1
+            r = chk.explore("history", dict(model=name, history=h, cfg=cfg), f"history/{name}/{'+'.join(h)}/{cfg or 'default'}", flags=dict(loop_budget=12000))
+            batch.extend(r.acc.validate[:12])
+    batch += solvefam.run_plan(chk, ["C15"], [(n, {}) for n in models])
+    chk.tier_validate_jit = True
+    chk.extra_cov["explanation"] = (
+        "Decided by symbolic execution of the source (interpreted semantics): on every path (1) solutions and statistics contain no cell of an np.empty array (all such cells are unconstrained symbols), "
+        "(2) a filtering call returns the same result for every permutation argsort may return on ties, (3) a fresh solver on a fresh problem and a solver created after a history of earlier solver "
+        "constructions, partial/complete enumerations, an optimisation, registrations, split() and a second init() yield the same solution sequence (z3 equality of the terms) and the same statistics, "
+        "the problem object keeps its meaning, mutable default arguments are not mutated. NOT decided: that the Numba-compiled code computes what the source says (no tool here executes Numba's LLVM IR "
+        "symbolically); as supporting evidence only, every path witness is re-run on the real build in BOTH modes and must give the predicted solution sequence and statistics."
+    )
+    chk.assumptions += ["JIT vs interpreted equivalence is NOT claimed as solver-decided (see explanation); cross-process effects (Numba cache files) are outside"]
+    return chk.finish({"solve": batch}, both_modes=True)
